@@ -4,7 +4,7 @@ Rules: R-C18-reject, R-C18-map, R-C18-slices.
 """
 import ast
 
-from ..absint import arith
+from ..absint import arith, addrsim
 from ..cfg import cfg_of
 from ..consteval import UNKNOWN
 from ..core import AnalysisError
@@ -63,36 +63,6 @@ def _region_sizes(ctx):
     return out
 
 
-def extract_memmap(ctx, f):
-    """-> [(start, end, region attr name)], tuple node, loop node"""
-    for n in walk_own(f.node):
-        if isinstance(n, ast.Assign) and isinstance(n.value, ast.Tuple) and \
-                n.value.elts and all(isinstance(r, ast.Tuple) and
-                                     len(r.elts) == 3
-                                     for r in n.value.elts):
-            rows = []
-            for r in n.value.elts:
-                a = ctx.consts.eval_expr(f.module, r.elts[0])
-                b = ctx.consts.eval_expr(f.module, r.elts[1])
-                arr = r.elts[2]
-                if not (isinstance(a, int) and isinstance(b, int)):
-                    raise AnalysisError('memmap bounds do not evaluate')
-                if not (isinstance(arr, ast.Attribute) and
-                        arr.attr == '_data' and
-                        isinstance(arr.value, ast.Attribute) and
-                        isinstance(arr.value.value, ast.Name) and
-                        arr.value.value.id == 'self'):
-                    raise AnalysisError('memmap array is not self.<r>._data')
-                rows.append((a, b, arr.value.attr))
-            name = n.targets[0].id if isinstance(n.targets[0], ast.Name) \
-                else None
-            for lp in walk_own(f.node):
-                if isinstance(lp, ast.For) and isinstance(lp.iter, ast.Name) \
-                        and lp.iter.id == name:
-                    return rows, n, lp
-    raise AnalysisError('memmap tuple / loop not found')
-
-
 def rule_map(ctx, res, rows, node, f):
     want = [(a, b, n) for (n, a, b) in ref.MEMORY_MAP]
     res.tables['memmap'] = [(hex(a), hex(b), n) for (a, b, n) in rows]
@@ -115,137 +85,22 @@ def rule_map(ctx, res, rows, node, f):
                       n, sizes.get(n), b - a), f.module.loc(node))
 
 
-class _Stop(Exception):
-    def __init__(self, kind):
-        self.kind = kind
+def _sim(ctx, f):
+    params = f.params()
+    data = params[1] if len(params) > 1 else 'data'
+    addr = params[2] if len(params) > 2 else 'start_addr'
+    return addrsim.Sim(ctx, f, data, addr)
 
 
-def _uses_of_data_ok(f, data):
-    """the data parameter occurs only as len(data), as a truth test, sliced,
-    or as the whole right-hand side of a slice store"""
-    for n in walk_own(f.node):
-        if isinstance(n, ast.Name) and n.id == data and \
-                isinstance(n.ctx, ast.Load):
-            p = getattr(n, '_parent', None)
-            if isinstance(p, ast.Call) and isinstance(p.func, ast.Name) and \
-                    p.func.id == 'len':
-                continue
-            if isinstance(p, ast.Subscript) and p.value is n and \
-                    isinstance(p.slice, ast.Slice):
-                continue
-            if isinstance(p, ast.UnaryOp) and isinstance(p.op, ast.Not):
-                continue
-            if isinstance(p, (ast.If, ast.While, ast.IfExp)) and p.test is n:
-                continue
-            if isinstance(p, ast.Assign) and p.value is n and \
-                    isinstance(p.targets[0], ast.Subscript):
-                continue
-            if isinstance(p, ast.Call) and isinstance(p.func, ast.Attribute) \
-                    and p.func.attr == 'format':
-                continue                     # error message
-            return False
-    return True
-
-
-def simulate(f, rows, memname, addr, data, s, L):
-    """Interpret write_cart_data on the integers (start_addr = s, len(data) =
-    L; cart bytes play no role).  -> (outcome, [(region, dlo, dhi, slo, shi)])
-    with outcome 'ok' or 'raise'; slice bounds are raw (None = omitted)."""
-    lenkey = 'len({})'.format(data)
-    env = {addr: s, lenkey: L, data: L}
-    stores = []
-    region_of = {}
-
-    def store(t, v):
-        # <region array>[a:b] = data[c:d] | data
-        arr = t.value
-        if isinstance(arr, ast.Name) and arr.id in region_of:
-            reg = region_of[arr.id]
-        elif isinstance(arr, ast.Attribute) and arr.attr == '_data' and \
-                isinstance(arr.value, ast.Attribute):
-            reg = arr.value.attr
-        else:
-            raise AnalysisError('store into ' + unparse(arr, 40))
-        if not isinstance(t.slice, ast.Slice) or t.slice.step is not None:
-            raise AnalysisError('store is not a plain slice store')
-        dlo = arith.ev(t.slice.lower, env) if t.slice.lower is not None \
-            else None
-        dhi = arith.ev(t.slice.upper, env) if t.slice.upper is not None \
-            else None
-        if isinstance(v, ast.Name) and v.id == data:
-            slo = shi = None
-        elif isinstance(v, ast.Subscript) and isinstance(v.value, ast.Name) \
-                and v.value.id == data and isinstance(v.slice, ast.Slice) \
-                and v.slice.step is None:
-            slo = arith.ev(v.slice.lower, env) if v.slice.lower is not None \
-                else None
-            shi = arith.ev(v.slice.upper, env) if v.slice.upper is not None \
-                else None
-        else:
-            raise AnalysisError('stored value is not (a slice of) the data: '
-                                + unparse(v, 40))
-        stores.append((reg, dlo, dhi, slo, shi))
-
-    def block(stmts):
-        for st in stmts:
-            if isinstance(st, ast.Expr) and isinstance(st.value, ast.Constant):
-                continue
-            if isinstance(st, ast.Pass):
-                continue
-            if isinstance(st, ast.If):
-                block(st.body if arith.ev(st.test, env) else st.orelse)
-                continue
-            if isinstance(st, ast.Raise):
-                raise _Stop('raise')
-            if isinstance(st, ast.Return):
-                raise _Stop('return')
-            if isinstance(st, ast.Continue):
-                raise _Stop('continue')
-            if isinstance(st, ast.Break):
-                raise _Stop('break')
-            if isinstance(st, ast.Assert):
-                if not arith.ev(st.test, env):
-                    raise _Stop('raise')
-                continue
-            if isinstance(st, ast.Assign) and len(st.targets) == 1:
-                t = st.targets[0]
-                if isinstance(t, ast.Name) and t.id == memname:
-                    continue
-                if isinstance(t, ast.Name):
-                    env[t.id] = arith.ev(st.value, env)
-                    continue
-                if isinstance(t, ast.Subscript):
-                    store(t, st.value)
-                    continue
-            if isinstance(st, ast.For) and isinstance(st.iter, ast.Name) and \
-                    st.iter.id == memname and \
-                    isinstance(st.target, ast.Tuple) and \
-                    len(st.target.elts) == 3 and \
-                    all(isinstance(e, ast.Name) for e in st.target.elts) and \
-                    not st.orelse:
-                va, vb, varr = [e.id for e in st.target.elts]
-                for (a, b, name) in rows:
-                    env[va], env[vb] = a, b
-                    region_of[varr] = name
-                    try:
-                        block(st.body)
-                    except _Stop as ex:
-                        if ex.kind == 'continue':
-                            continue
-                        if ex.kind == 'break':
-                            break
-                        raise
-                continue
-            raise AnalysisError('statement outside the model: ' +
-                                unparse(st, 60))
-    try:
-        block(f.node.body)
-    except _Stop as ex:
-        if ex.kind == 'raise':
-            return 'raise', stores
-        if ex.kind in ('continue', 'break'):
-            raise AnalysisError('continue/break outside a loop')
-    return 'ok', stores
+def extract_rows(ctx, f):
+    """the memory map the function walks: [(start, end, region name)]"""
+    sim = _sim(ctx, f)
+    sim.run(0, 1)
+    if len(sim.row_tables) != 1:
+        raise AnalysisError('expected one (start, end, region array) table '
+                            'walked by a loop, found {}'.format(
+                                len(sim.row_tables)))
+    return sim.row_tables[0]
 
 
 def _axis(points, total):
@@ -263,24 +118,9 @@ def _axis(points, total):
     return out
 
 
-def rule_effect(ctx, res, f, rows, memname):
+def rule_effect(ctx, res, f, rows):
     total = rows[-1][1]
-    params = f.params()
-    data = params[1] if len(params) > 1 else 'data'
-    addr = params[2] if len(params) > 2 else 'start_addr'
-    if not _uses_of_data_ok(f, data):
-        res.undecided('R-C18-slices', Q, 'use of the data',
-                      'the data parameter is used other than by length, '
-                      'truth value and slicing', f.loc)
-        return
-    for n in walk_own(f.node):
-        if isinstance(n, ast.BinOp) and isinstance(
-                n.op, (ast.Mult, ast.FloorDiv, ast.Mod, ast.Pow, ast.LShift,
-                       ast.RShift, ast.BitAnd, ast.BitOr)):
-            res.undecided('R-C18-slices', Q, 'affine structure',
-                          'address arithmetic uses * // % or bit operators: '
-                          'not piecewise affine', f.module.loc(n))
-            return
+    sim = _sim(ctx, f)
     # integer constants of the function shift the breakpoints
     offs = {0}
     for n in walk_own(f.node):
@@ -306,8 +146,7 @@ def rule_effect(ctx, res, f, rows, memname):
                 n_pts += 1
                 L = e - s
                 try:
-                    outcome, stores = simulate(f, rows, memname, addr, data,
-                                               s, L)
+                    outcome, stores = sim.run(s, L)
                 except AnalysisError as ex:
                     res.undecided('R-C18-slices', Q, 'analysis', str(ex),
                                   f.loc)
@@ -425,11 +264,10 @@ def run(ctx, res):
     model = ctx.model
     f = model.func(Q)
     try:
-        rows, node, loop = extract_memmap(ctx, f)
+        rows = extract_rows(ctx, f)
     except AnalysisError as e:
         res.undecided('R-C18-map', Q, 'memmap', str(e), f.loc)
         return
-    rule_map(ctx, res, rows, node, f)
-    memname = node.targets[0].id
+    rule_map(ctx, res, rows, f.node, f)
     rule_reject_dominates(ctx, res, f, rows)
-    rule_effect(ctx, res, f, rows, memname)
+    rule_effect(ctx, res, f, rows)
